@@ -711,7 +711,7 @@ package gogen
 //@ requires imp(IsCompareTok(tok), CmpOperandsOK(a, tok, b))
 //@ ensures imp(!IsShiftTok(tok) && !IsCompareTok(tok), result == constant.BinaryOp(a, tok, b))
 //@ ensures imp(IsCompareTok(tok), result == constant.MakeBool(constant.Compare(a, tok, b)))
-//@ ensures imp(IsShiftTok(tok), cKind(constant.ToInt(b)) == 3 && tuple1(constant.Int64Val(constant.ToInt(b))) && result == constant.Shift(constant.ToInt(a), tok, umod(tuple0(constant.Int64Val(constant.ToInt(b))), 18446744073709551616)))
+//@ ensures imp(IsShiftTok(tok), cKind(constant.ToInt(b)) == 3 && tuple1(constant.Int64Val(constant.ToInt(b))) && 0 <= tuple0(constant.Int64Val(constant.ToInt(b))) && tuple0(constant.Int64Val(constant.ToInt(b))) <= 1074 && result == constant.Shift(constant.ToInt(a), tok, tuple0(constant.Int64Val(constant.ToInt(b)))))
 
 //@ func binaryOp
 //@ prop C04
